@@ -92,6 +92,7 @@ type W struct {
 	rep      Report
 	sets     map[string]map[string]bool
 	wd       time.Duration
+	raceOff  int
 	describe bool
 	deadline time.Time
 }
@@ -124,6 +125,7 @@ func (w *W) Case(desc func() string, run func()) {
 	w.started.Store(time.Now().UnixNano())
 	defer func() {
 		w.started.Store(0)
+		w.collectRaces(i) // race-instrumented drivers: reports produced by this case
 		if r := recover(); r != nil {
 			msg, fn, inRepo := PanicSite(r, debug.Stack())
 			if inRepo {
@@ -285,7 +287,70 @@ func mmapCell(path string) *int64 {
 	return (*int64)(unsafe.Pointer(&b[0]))
 }
 
+// collectRaces turns the race detector's log (E2 drivers are built with -race) into
+// failures: signature = the unordered pair of the first arr.ai frames of the two accesses.
+// A report with no arr.ai frame on either side is a race inside the harness itself.
+func (w *W) collectRaces(atIdx int64) {
+	base := os.Getenv("VERIF_RACE_LOG")
+	if base == "" {
+		return
+	}
+	path := fmt.Sprintf("%s.%d", base, os.Getpid())
+	b, err := os.ReadFile(path)
+	if err != nil || len(b) <= w.raceOff {
+		return
+	}
+	b, w.raceOff = b[w.raceOff:], len(b)
+	for _, blk := range strings.Split(string(b), "WARNING: DATA RACE")[1:] {
+		var sides []string
+		cur := ""
+		lines := strings.Split(blk, "\n")
+		for i, l := range lines {
+			t := strings.TrimSpace(l)
+			if strings.HasPrefix(t, "Read at") || strings.HasPrefix(t, "Write at") || strings.HasPrefix(t, "Previous read at") || strings.HasPrefix(t, "Previous write at") ||
+				strings.HasPrefix(t, "Atomic") || strings.HasPrefix(t, "Previous atomic") {
+				if len(sides) < 2 {
+					sides = append(sides, "")
+				}
+				cur = t
+				continue
+			}
+			if strings.HasPrefix(t, "Goroutine ") {
+				break
+			}
+			if cur != "" && len(sides) > 0 && sides[len(sides)-1] == "" && strings.HasPrefix(t, RepoDir+"/") && !strings.Contains(t, "zz_verif") && !strings.Contains(t, "/pkg/zzverif/") && i > 0 {
+				f := strings.TrimSpace(lines[i-1])
+				if j := strings.LastIndex(f, "("); j > 0 {
+					f = f[:j]
+				}
+				sides[len(sides)-1] = strings.TrimPrefix(f, "github.com/arr-ai/arrai/")
+			}
+		}
+		for len(sides) < 2 {
+			sides = append(sides, "")
+		}
+		if sides[0] == "" && sides[1] == "" {
+			w.rep.Broken = append(w.rep.Broken, "data race inside the harness: "+oneLineN(blk, 600))
+			continue
+		}
+		sort.Strings(sides)
+		w.FailAt(atIdx, "race", "race|"+sides[0]+"|"+sides[1], oneLineN(blk, 900), "")
+	}
+}
+
+func oneLineN(s string, n int) string {
+	s = strings.Join(strings.Fields(s), " ")
+	if len(s) > n {
+		s = s[:n] + "…"
+	}
+	return s
+}
+
 func (w *W) finish(code int) {
+	w.collectRaces(w.idx - 1)
+	if base := os.Getenv("VERIF_RACE_LOG"); base != "" {
+		os.Remove(fmt.Sprintf("%s.%d", base, os.Getpid()))
+	}
 	for k, m := range w.sets {
 		l := make([]string, 0, len(m))
 		for s := range m {
